@@ -55,7 +55,7 @@ fn main() {
     let mut rng = Rng::new(em.args.seed);
     let thorough = em.thorough();
     // ================= part=prefix ===============================================================
-    let nser = if thorough { 70 } else { 14 };
+    let nser = if thorough { 90 } else { 40 };
     for si in 0..nser {
         let len = if si < 2 { si + 1 } else { rng.range(2, if thorough { 14 } else { 9 }) as usize };
         let xs = series(&mut rng, len, true);
@@ -115,7 +115,7 @@ fn main() {
         }
     }
     // ================= part=window ===============================================================
-    let nwin = if thorough { 160 } else { 30 };
+    let nwin = if thorough { 240 } else { 90 };
     for si in 0..nwin {
         let tl = rng.range(2, 10) as usize;
         let h = rng.range(1, 12) as usize;
